@@ -23,6 +23,9 @@ NON_ALLOCATING = {
     'std::time::Instant::now': 'clock read',
     '<std::time::Instant as std::ops::Sub>::sub': 'arithmetic',
     'std::time::Instant::elapsed': 'clock read + arithmetic',
+    'std::time::Instant::duration_since': 'arithmetic',
+    'std::time::Instant::saturating_duration_since': 'arithmetic',
+    'std::time::Instant::checked_duration_since': 'arithmetic',
 }
 ALLOCATING = {
     'std::sync::Arc::<T>::new': 'allocates the shared state',
